@@ -70,12 +70,13 @@ impl Family for B5 {
         "b5"
     }
     fn properties(&self) -> &'static [&'static str] {
-        &["C12", "C13", "C10"]
+        &["C12", "C13", "C10", "C09"]
     }
     fn budget(&self, tier: Tier, p: &str) -> u64 {
         let q = match p {
             "C12" => 250,
             "C13" => 150,
+            "C09" => 120,
             _ => 200,
         };
         q * match tier {
@@ -142,7 +143,7 @@ impl Family for B5 {
     }
     fn execute(&self, s: &Scn) -> RunOut {
         let mut out = RunOut::default();
-        out.props = vec!["C12", "C13", "C10"];
+        out.props = vec!["C12", "C13", "C10", "C09"];
         let w = world(s.seed % 16);
         let pubs: Vec<[u8; 32]> = w.sks.iter().map(rp::x25519_base).collect();
         let pt = s.plain.bytes();
@@ -217,7 +218,12 @@ impl Family for B5 {
         if code == 101 && stderr_faulted {
             // eprint!/eprintln! panic when stderr cannot be written
             out.violations.push(viol("C12", "exit_101_stderr_print_failure", format!("{}: a write to stderr failed (errno {:?}) and the tool exited 101 instead of 0 or 1", what, injected)));
+            // the same defect is a panic, which C09 rules out whatever the tool is started with
+            out.violations.push(viol("C09", "panic_when_stderr_unwritable", format!("{}: a write to stderr failed (errno {:?}) and the tool panicked (exit 101)", what, injected)));
         } else if code != 0 && code != 1 && code != -1 {
+            if code == 101 || fin.panicked() {
+                out.violations.push(viol("C09", "panic_under_io_failure", format!("{}: the tool panicked (exit {}) when a system call failed (injected errnos {:?}): {}", what, code, injected, stderr.chars().take(240).collect::<String>())));
+            }
             let on_stdout_text = !data_op && injected.iter().any(|_| true) && stderr.contains("failed printing to stdout");
             out.violations.push(viol(
                 "C12",
